@@ -84,8 +84,6 @@ def defKind : P DefKind := do
   | "result" => do let a ← optTy; let b ← optTy; pure (.result a b)
   | "self" => pure (.self (← ty))
   | "alias" => pure (.alias (← ty))
-  | "future" => pure .future
-  | "stream" => pure .stream
   | "handle" => pure .handle
   | "unknown" => pure .unknown
   | _ => failure
